@@ -106,6 +106,8 @@ def gen_program(rng, idx):
                 else:
                     vals.append(('num', 7000.5 + tagc[0]))
         f['prepend_values'] = vals
+    if rng.random() < 0.3:
+        add_repeated_names(rng, funcs, new_param)
     if rng.random() < 0.25:
         add_failing_wraps(rng, funcs, new_param)
     prog = {'name': f'd{idx % 100000}', 'funcs': funcs, 'top': 'g0',
@@ -113,18 +115,20 @@ def gen_program(rng, idx):
     live = [f for f in funcs.values() if not f.get('fails')]
     ctl_names = [p['name'] for f in live for p in f['params'][f['prepend']:]]
     by_name = {p['name']: p for f in live for p in f['params']}
+    # variants (and the forced spec) only address names declared once
+    uniq = [n for n in ctl_names if ctl_names.count(n) == 1]
     if ctl_names and rng.random() < 0.35:
         for nm in rng.sample(ctl_names, rng.randint(1, min(4, len(ctl_names)))):
             prog['specs'][nm] = rng.choice([0.3, 7, 9.5, 0.01, 220.0])
         # make sure a spec default is sometimes actually used
-        unset = [n for n in ctl_names
+        unset = [n for n in uniq
                  if by_name[n]['default'][0] in ('missing', 'none')]
         if unset:
             prog['specs'][rng.choice(unset)] = rng.choice([0.3, 7, 9.5])
-    if ctl_names and rng.random() < 0.4:
+    if uniq and rng.random() < 0.4:
         for v in range(rng.randint(1, 3)):
             pairs = {}
-            for nm in rng.sample(ctl_names, rng.randint(1, min(4, len(ctl_names)))):
+            for nm in rng.sample(uniq, rng.randint(1, min(4, len(uniq)))):
                 d = by_name[nm]['default']
                 if d[0] == 'tuple' and rng.random() < 0.7:
                     m = rng.randint(1, len(d[1]))
@@ -137,13 +141,87 @@ def gen_program(rng, idx):
     top_ctl = [p['name'] for p in top['params'][top['prepend']:]]
     npos = rng.randint(0, min(6, len(top_ctl))) if rng.random() < 0.8 else 0
     pos = [1000.25 + k for k in range(npos)]
-    rest = [n for n in ctl_names if n not in top_ctl[:npos]]
+    rest = sorted({n for n in ctl_names if n not in top_ctl[:npos]},
+                  key=ctl_names.index)
     kw = {}
     if rest and rng.random() < 0.7:
         for nm in rng.sample(rest, rng.randint(1, min(4, len(rest)))):
             kw[nm] = 2000.25 + len(kw)
     prog['call'] = {'positional': pos, 'keywords': kw}
     return prog
+
+
+def _prepend_values(rng, host, n, tag):
+    out = []
+    for j in range(n):
+        pn = [p['name'] for p in host['params']]
+        r = rng.random()
+        if r < 0.4 and pn:
+            out.append(('parent', rng.choice(pn)))
+        elif r < 0.7:
+            out.append(('fresh',))
+        else:
+            out.append(('num', 7500.5 + tag + j))
+    return out
+
+
+def add_repeated_names(rng, funcs, new_param):
+    """control names declared more than once in one definition:
+    * the same helper function wrapped again (1-2 more times: 'voices'),
+      each time with its own rates / prepend values;
+    * a new helper some of whose parameters are named like parameters of the
+      function that wraps it, of the top function or of another helper."""
+    import copy
+    base = list(funcs.values())
+    mode = rng.choice(['again', 'again', 'shared', 'both'])
+    if mode in ('again', 'both'):
+        helpers = [f for f in base if f['name'] != 'g0']
+        if not helpers:
+            k = len(funcs)
+            h = {'name': f'g{k}', 'prepend': 0, 'rates': None, 'wraps': [],
+                 'params': [new_param(False, False)
+                            for _ in range(rng.choice([1, 2, 3]))],
+                 'prepend_values': []}
+            funcs[h['name']] = h
+            funcs['g0']['wraps'].append(h['name'])
+            helpers = [h]
+        h = rng.choice(helpers)
+        nctl = len(h['params']) - h['prepend']
+        for _ in range(rng.choice([1, 1, 2])):
+            k = len(funcs)
+            host = rng.choice([f for f in funcs.values()
+                               if 'alias_of' not in f])
+            rates = h['rates']
+            if rng.random() < 0.5:
+                rates = None if rng.random() < 0.4 else [
+                    rng.choice([None, 0.2, 0.5, 'ir', 'kr', 'tr', 'ar'])
+                    for _ in range(rng.randint(0, nctl))]
+            funcs[f'g{k}'] = {
+                'name': f'g{k}', 'alias_of': h.get('alias_of', h['name']),
+                'params': copy.deepcopy(h['params']), 'prepend': h['prepend'],
+                'rates': rates, 'wraps': [],
+                'prepend_values': _prepend_values(rng, host, h['prepend'], k)}
+            host['wraps'].insert(rng.randint(0, len(host['wraps'])), f'g{k}')
+    if mode in ('shared', 'both'):
+        k = len(funcs)
+        host = rng.choice([f for f in funcs.values() if 'alias_of' not in f])
+        pool = [p for f in (host, funcs['g0'], rng.choice(base))
+                for p in f['params'][f['prepend']:]]
+        params, used = [], set()
+        for _ in range(rng.choice([1, 2, 2, 3, 4])):
+            p = new_param(False, False)
+            if pool and rng.random() < 0.6:
+                nm = rng.choice(pool)['name']
+                if nm not in used:
+                    p['name'] = nm
+            used.add(p['name'])
+            params.append(p)
+        rates = None if rng.random() < 0.5 else [
+            rng.choice([None, 0.1, 'ir', 'tr', 'ar', 'kr'])
+            for _ in range(rng.randint(0, len(params)))]
+        funcs[f'g{k}'] = {'name': f'g{k}', 'params': params, 'prepend': 0,
+                          'rates': rates, 'wraps': [], 'prepend_values': []}
+        host['wraps'].insert(rng.randint(0, len(host['wraps'])), f'g{k}')
 
 
 INVALID_ANNOTATIONS = ['float', 'int', '1', "'krr'", "'a'", "'KR'", "'rate'",
@@ -257,6 +335,8 @@ def source(prog):
     variables to the harness callback __body__(function name, locals())."""
     out = []
     for f in prog['funcs'].values():
+        if 'alias_of' in f:
+            continue        # the same python function, wrapped once more
         sig = ', '.join(param_source(p) for p in f['params'])
         out.append(f"def {f['name']}({sig}):\n"
                    f"    return __body__({f['name']!r}, locals())\n")
@@ -268,11 +348,13 @@ def describe(prog):
     d = {'source': source(prog), 'definition_name': prog['name']}
     for f in prog['funcs'].values():
         if f['rates'] is not None or f['prepend'] or f['wraps'] \
-                or f.get('fails'):
+                or f.get('fails') or 'alias_of' in f:
             d[f['name']] = {'rates': f['rates'], 'prepend': f['prepend_values'],
                             'wraps': f['wraps']}
             if f.get('fails'):
                 d[f['name']]['rejected_by_wrap_then_fallback'] = f['fallback']
+            if 'alias_of' in f:
+                d[f['name']]['same_function_as'] = f['alias_of']
     if prog['specs']:
         d['specs'] = prog['specs']
     if prog['variants']:
